@@ -2090,7 +2090,8 @@ pub fn cli(ctx: &Ctx, args: &[String]) -> i32 {
             let part: usize = arg(args, "--part").and_then(|s| s.parse().ok()).unwrap_or(0);
             let parts: usize = arg(args, "--parts").and_then(|s| s.parse().ok()).unwrap_or(1);
             let mut progress = crate::Progress::open(arg(args, "--progress"));
-            let defs = select_defs(ctx, seed, max_defs);
+            // a different slice of the definitions for each property's check
+            let defs = select_defs(ctx, seed.wrapping_add(focus as u64), max_defs);
             let mut rep = BatchReport { mode: format!("tour/{}", if faults { "faults" } else { "fault-free" }), ..Default::default() };
             let mut hash = FNV_INIT;
             let mut states: BTreeSet<u64> = BTreeSet::new();
